@@ -34,7 +34,9 @@ TRUSTED = [
     "line/column theorem lexAll_line is about it; tied to the code by comparing the model's token list "
     "(kind, span, line, column, value) with the implementation's on every enumerated/generated string",
     "locations of validation/execution errors are derived by GraphQLError from node start offsets through "
-    "get_location (modelled); that derivation itself is checked on the implementation only",
+    "get_location (modelled); that derivation itself is checked on the implementation only (validation and "
+    "execution errors on documents with random line terminators / FF / LS / NEL between tokens and random "
+    "location_offset, against Spec.lineCol and the offset arithmetic)",
 ]
 ASSUMPTIONS = [
     "offsets strictly between a CR and its LF are outside the statement (only: no exception, line >= 1)",
@@ -263,6 +265,92 @@ CORPUS = [
 ]
 
 
+_ERR_SCHEMA = """
+type Query { a: Int b(x: Int!): String c: [Query!] boom: Int nn: Int! }
+"""
+_ERR_DOCS = [
+    # validation errors at several nodes (unknown fields/arguments, wrong literals, unused/undefined variables)
+    ["{", "a", "zz", "b", "(", "x", ":", '"s"', ")", "c", "{", "yy", "}", "}"],
+    ["query", "Q", "(", "$v", ":", "Int", ")", "{", "b", "(", "x", ":", "$w", ")", "...", "F", "}", "fragment", "G", "on", "Query", "{", "a", "}"],
+    ["{", "a", "a", ":", "b", "(", "x", ":", "1", ")", "c", "{", "c", "}", "}"],
+    # execution errors (raising resolver `boom`, null at non-null `nn`) at several positions
+    ["{", "a", "boom", "c", "{", "boom", "x1", ":", "boom", "}", "}"],
+    ["{", "c", "{", "a", "nn", "}", "boom", "}"],
+    ['"""d\r\n e"""', "query", "{", "boom", "c", "{", "boom", "}", "}"],
+]
+# FF / LS / NEL are not ignored characters: they may only occur inside comments (and strings)
+_GAPS = [" ", "\n", "\r", "\r\n", ",", "\t", "  \n ", "\r\r\n", "#c\x85\n", "#\r", "#\x0c\u2028 x\r\n", " #\x0c\n"]
+
+
+def _work_errors(args):
+    """Locations of validation and execution errors (GraphQLError derives them from the nodes' start
+    offsets through Source.get_location) against the Lean spec, on documents whose ignored material is
+    full of line terminators and of characters str.splitlines would have split on."""
+    cases, drv = args
+    from graphql import build_schema, execute_sync, parse, validate
+    from graphql.error import GraphQLSyntaxError
+    from graphql.language import Source, SourceLocation
+
+    rep = Report()
+    driver = fw.Driver(drv) if drv else None
+    schema = build_schema(_ERR_SCHEMA)
+
+    def boom(*_a):
+        raise RuntimeError("boom")
+
+    schema.query_type.fields["boom"].resolve = boom
+    schema.query_type.fields["c"].resolve = lambda *_a: [{}, {}]
+    schema.query_type.fields["nn"].resolve = lambda *_a: None
+    lines, metas = [], []
+    for body, off in cases:
+        try:
+            doc = parse(Source(body, "S", SourceLocation(*off)))
+        except GraphQLSyntaxError:
+            continue
+        errs = list(validate(schema, doc))
+        kind = "validation"
+        if not errs:
+            errs = list(execute_sync(schema, doc, root_value={}).errors or [])
+            kind = "execution"
+        for e in errs:
+            rep.evaluations += 1
+            try:
+                text = str(e)
+                fmt = e.formatted
+            except Exception as ex:  # noqa: BLE001
+                rep.failures.append(Failure("error-render-raises", "str(error)/formatted raises", {"body": body, "location_offset": list(off)}, type(ex).__name__, "text", "C10-5"))
+                continue
+            for pos, loc in zip(e.positions or [], e.locations or []):
+                lines.append(f"spec {pos} {fw.cps(body)}")
+                metas.append((kind, body, off, pos, tuple(loc), text, fmt))
+    outs = driver.run(lines) if driver else []
+    for (kind, body, off, pos, loc, text, fmt), out in zip(metas, outs):
+        l, c, ins = (int(x) for x in out.split())
+        if ins == 0 and loc != (l, c):
+            rep.failures.append(Failure(f"{kind}-error-location", f"{kind} error location differs from the true location of its node", {"body": body, "position": pos}, list(loc), [l, c], "C10-3 error_locations"))
+        if {"line": loc[0], "column": loc[1]} not in (fmt.get("locations") or []):
+            rep.failures.append(Failure("error-format-location", "formatted locations differ from .locations", {"body": body}, fmt, list(loc), "C10-3"))
+        want_line = loc[0] + off[0] - 1
+        want_col = loc[1] + (off[1] - 1 if loc[0] == 1 else 0)
+        if f"S:{want_line}:{want_col}" not in text:
+            rep.failures.append(Failure("error-text-location-offset", "str(error) does not show line/column shifted by location_offset", {"body": body, "location_offset": list(off), "location": list(loc)}, text[:300], f"S:{want_line}:{want_col}", "C10-4 rendered_offset"))
+    if cases:
+        rep.samples.append({"error_location_document": cases[0][0], "location_offset": list(cases[0][1])})
+    rep.stats["error_location_documents"] = len(cases)
+    return rep
+
+
+def _gen_error_docs(rng, n):
+    out = []
+    for _ in range(n):
+        toks = rng.choice(_ERR_DOCS)
+        body = rng.choice(["", "\n", "\r\n#x\r", "#\x0c\r"])
+        for t in toks:
+            body += t + rng.choice(_GAPS)
+        out.append((body, rng.choice([(1, 1), (1, 1), (3, 1), (1, 7), (5, 4)])))
+    return out
+
+
 def explore(ctx) -> Report:
     fw.use_repo()
     # thorough: exhaustive to length 5 (177 k strings x all offsets) + 400 k random strings of length 6..9;
@@ -283,6 +371,9 @@ def explore(ctx) -> Report:
     reps = fw.pmap(_work, [(c, ctx.seed, drv) for c in chunks])
     rep = Report()
     for r in reps:
+        rep.merge(r)
+    edocs = _gen_error_docs(rng, 600 if ctx.tier == "quick" else 12000)
+    for r in fw.pmap(_work_errors, [(c, drv) for c in fw.chunked(edocs, fw.WORKERS)]):
         rep.merge(r)
     rep.rule = (
         f"all strings of length <= {n} over the 11-symbol alphabet {ALPHABET!r} x all offsets 0..len+1 (exhaustive), "
